@@ -132,6 +132,9 @@ async def set_port_attrs(port: core_ports.BasePort, attrs: GenericJSONDict, igno
         await asyncio.wait([asyncio.create_task(set_attr(n, v)) for n, v in attrs.items()])
 
     if errors_by_name:
+        # The attributes that could be set stay set; persist them, so that they are not silently lost at the next restart
+        await port.save()
+
         name, error = next(iter(errors_by_name.items()))
 
         if isinstance(error, core_api.APIError):
